@@ -144,6 +144,17 @@ class CallMixin:
         ty = recv.ty
         if ty == T.Str:
             yield st, self.str_method(st, recv, name, args, node); return
+        if isinstance(ty, T.Atom):
+            # opaque atoms admit only declared predicates: x.startswith(<constant>) becomes an uninterpreted predicate,
+            # evaluated on the known constants of the sort (sound abstraction of the string operation)
+            if name == "startswith" and len(args) == 1 and is_pystr(args[0]):
+                c = args[0].t.as_string()
+                f = z3.Function("startswith_%s_%s" % (ty.name(), "".join("%02x" % ord(ch) for ch in c)), T.sort_of(ty), z3.BoolSort())
+                for pyc, zc in T.atom_consts_of(ty):
+                    st.assume(f(zc) == z3.BoolVal(pyc.startswith(c)))
+                self.note_assumption("atoms of sort %s: .startswith(%r) is an uninterpreted predicate fixed on the known constants" % (ty.name(), c))
+                yield st, SV(T.Bool, f(recv.t)); return
+            raise VCError("string operation %s on opaque atom %s" % (name, ty.name()))
         def writeback(newval):
             if recv.box is not None:
                 self.hwrite(st, recv.box[0], "val", recv.box[1], newval.t); yield st; return
@@ -199,9 +210,16 @@ class CallMixin:
         argname = lam.args.args[0].arg
         def keyof(elem_t, s):
             s2 = s.fork(); s2.env = dict(s.env); s2.env[argname] = SV(ty.t, elem_t)
-            outs = list(self.ev(lam.body, s2))
-            if len(outs) != 1: raise VCError("sort key must be a simple pure expression")
-            return outs[0][1]
+            base = len(s2.pc)
+            self.quiet += 1
+            try: outs = list(self.ev(lam.body, s2))
+            finally: self.quiet -= 1
+            if not outs: raise VCError("sort key must be a simple pure expression")
+            r = outs[-1][1]
+            for so, vo in reversed(outs[:-1]):
+                if vo.ty != r.ty: raise VCError("sort key of mixed types")
+                r = SV(r.ty, z3.If(z3.And(so.pc[base:] + [z3.BoolVal(True)]), vo.t, r.t))
+            return r
         r = fresh("sorted", ty); rarr = T.list_arr(ty, r)
         perm = z3.Function("perm!%d" % id(node), z3.IntSort(), z3.IntSort())   # new index -> old index
         inv = z3.Function("perminv!%d" % id(node), z3.IntSort(), z3.IntSort())
@@ -278,6 +296,7 @@ class CallMixin:
     def auto_inline_ok(self, dq, fnode):
         """Small accessors are inlined from their real source: bodies of at most 4 simple statements without loops."""
         if dq in self.inline_whitelist: return True
+        if fnode.name == "__init__" and not any(isinstance(s, (ast.For, ast.While, ast.Try, ast.With)) for s in ast.walk(fnode)): return True
         body = [s for s in fnode.body if not (isinstance(s, ast.Expr) and isinstance(s.value, ast.Constant))]
         if len(body) > 4: return False
         for s in ast.walk(fnode):
@@ -424,6 +443,15 @@ class CallMixin:
                         st.heap[(fam, f)] = fresh_sort("H_%s_%s" % (fam, f), z3.ArraySort(T.Ref, T.sort_of(sch.fields[f])))
                 continue
             if item == "alloc":
+                # the callee may allocate: fields of objects that did not exist before the call are unknown afterwards
+                r = z3.Int("r!al")
+                for fam, sch in R.SCHEMAS.items():
+                    if sch.box: continue
+                    for f in list(sch.fields) + ["__class__"]:
+                        old = self.harr(st, fam, f)
+                        new = fresh_sort("Ha_%s_%s" % (fam, f), old.sort())
+                        st.assume(z3.ForAll([r], z3.Implies(r < st.alloc, z3.Select(new, r) == z3.Select(old, r))))
+                        st.heap[(fam, f)] = new
                 na = fresh("alloc", T.Int); st.assume(na >= st.alloc); st.alloc = na; continue
             spec, _, at = item.partition("[")
             fam, field = spec.split(".")
